@@ -63,7 +63,19 @@ def run(chk, replay=None):
                  'hosts': [{'status': 200, 'body': base64.b64encode(gzb).decode(), 'cut': -1} for _, gzb in payloads]}
         # every other world is a SECOND run into the same --outputFile: longer outputs of an earlier run are already there
         pre = {('out.log.%d' % i): (b'{"stale":"line from an earlier, longer run"}\n' * 400) for i in range(len(hs))} if len(worlds) > 1 and worlds.index((hs, srv, payloads, window, cfg, challenge)) % 2 == 1 else None
-        r = atlaslib.run_cli(world, flags=cfg.cli_flags(), window=window, pre_outs=pre)
+        # the machine's time zone: none, UTC, and zones whose clocks were moved (forward / back) three days ago - "the last seven days" is 604800 seconds whatever the local calendar says
+        import tempfile as _tf, os as _os, time as _time
+        tzk = ['unset', 'UTC', 'forward', 'back'][wi % 4]
+        tzenv = None
+        if tzk in ('forward', 'back'): window = None      # the default window is the one that is computed from the clock
+        if tzk == 'UTC': tzenv = {'TZ': 'UTC'}
+        elif tzk in ('forward', 'back'):
+            tzf = _os.path.join(_tf.gettempdir(), 'c16_tz_%s_%d' % (tzk, _os.getpid()))
+            atlaslib.tzif_with_recent_switch(tzf, _time.time(), 3, 0 if tzk == 'forward' else 3600, 3600 if tzk == 'forward' else 0)
+            tzenv = {'TZ': tzf}
+        chk.dist('machine_timezone_' + tzk)
+        r = atlaslib.run_cli(world, flags=cfg.cli_flags(), window=window, pre_outs=pre, extra_env=tzenv)
+        if tzenv and tzenv['TZ'].startswith('/'): _os.remove(tzenv['TZ'])
         chk.count(); chk.traces += 1; chk.nontriv((tuple(hs), window, challenge))
         now = r['t0']
         # the model needs 'now' only for the default window; take it from the request the implementation made
